@@ -21,6 +21,7 @@ func checkC07(p *Prog, r *Report) {
 	nmoveSweeps(p, r, "C07.R9")
 	uptakeReset(p, r, "C07.R10")
 	c07AppliedDissolved(p, r)
+	c07CounterSigns(p, r)
 	// "finite": the partial operations of the nitrogen routines stay inside their domains (shared machinery with C06.R6)
 	domainRule(p, r, "C07.R7", "the nitrogen routines (denitrification, mineralisation, transport, daily bookkeeping) and the set-up of the organic N pools from the soil description", []string{"hermes.Denitr", "hermes.Denitmo", "hermes.mineral", "hermes.nmove", "hermes.Nitro", "hermes.SoilFileData.cNSetup", "hermes.Init"}, 60)
 }
@@ -517,5 +518,93 @@ func c07AppliedDissolved(p *Prog, r *Report) {
 	}
 	if n == 0 {
 		r.Ob("pair", "-", false, "no reset of an applied-fertiliser counter found (the re-initialisation on a measurement date was confirmed by hand)")
+	}
+}
+
+// C07.R12 — "all cumulative N counters are … never negative": a counter that starts at 0 and only ever receives
+// non-negative amounts stays non-negative.  For the loss counters of the denitrification routines the amount
+// added on a call is decided by the sign analysis of the domain rule (path condition, stored values, named
+// assumptions); an amount that may be negative is reported with what the analysis knows about it.
+var c07LossCounters = map[string][]string{
+	"hermes.Denitr":  {"GlobalVarsMain.CUMDENIT", "GlobalVarsMain.N2Odencum"},
+	"hermes.Denitmo": {"GlobalVarsMain.CUMDENIT", "GlobalVarsMain.N2Odencum"},
+}
+
+func c07CounterSigns(p *Prog, r *Report) {
+	r.Rule("C07.R12", "loss counters only grow: in the denitrification routines the amount added to the cumulative denitrification counter and to the cumulative N2O counter on a call is non-negative (factor-wise sign evaluation of the added expression on the syntax tree: constants, products and quotients, sums of equal-sign terms, powers of non-negative bases, floors and caps, max/min with a non-negative argument, the saturating response 1 − exp(t) for t ≤ 0, and the named non-negativity assumptions on mineral N, water content and pore volume); the daily N2O amount is the quantity added", 4)
+	as := newAssumptions()
+	var keys []string
+	for k := range c07LossCounters {
+		keys = append(keys, k)
+	}
+	sort.Strings(keys)
+	for _, key := range keys {
+		fi := p.Funcs[key]
+		if fi == nil {
+			r.Ob("counter-sign:"+short(key), "-", false, key+" not found")
+			continue
+		}
+		info := fi.Pkg.TypesInfo
+		for _, root := range c07LossCounters[key] {
+			field := shortRoot(root)
+			n := 0
+			ast.Inspect(fi.Decl.Body, func(nd ast.Node) bool {
+				as1, ok := nd.(*ast.AssignStmt)
+				if !ok || len(as1.Lhs) != 1 || len(as1.Rhs) != 1 {
+					return true
+				}
+				sel, ok := stripParens(as1.Lhs[0]).(*ast.SelectorExpr)
+				if !ok || sel.Sel.Name != field {
+					return true
+				}
+				n++
+				// added amount: X = X + a + b …  or  X += a
+				var added []ast.Expr
+				okForm := true
+				switch as1.Tok {
+				case token.ADD_ASSIGN:
+					added = []ast.Expr{as1.Rhs[0]}
+				case token.ASSIGN:
+					e := stripParens(as1.Rhs[0])
+					for {
+						be, isB := e.(*ast.BinaryExpr)
+						if !isB || be.Op != token.ADD {
+							break
+						}
+						added = append(added, be.Y)
+						e = stripParens(be.X)
+					}
+					if types.ExprString(e) != types.ExprString(sel) {
+						okForm = false
+					}
+				default:
+					okForm = false
+				}
+				if !okForm {
+					r.Ob("counter-sign:"+short(key)+":"+field, p.Pos(as1.Pos()), false, "the counter is not updated as 'counter + amount': "+clip(types.ExprString(as1.Rhs[0]), 100))
+					return true
+				}
+				sg := newAstSigner(info, fi.Decl.Body, as)
+				var tot Sg = sZ
+				for _, a := range added {
+					tot = sgAdd(tot, sg.sign(a))
+				}
+				var names []string
+				for nme := range sg.used {
+					names = append(names, nme)
+				}
+				sort.Strings(names)
+				txt := ""
+				for i := len(added) - 1; i >= 0; i-- {
+					txt += " + " + types.ExprString(added[i])
+				}
+				r.Ob("counter-sign:"+short(key)+":"+field, p.Pos(as1.Pos()), tot&sN == 0, fmt.Sprintf("amount added to %s:%s has sign %s; assuming %v", field, clip(txt, 90), tot, names))
+				// the daily amount reported is the amount added
+				return true
+			})
+			if n == 0 {
+				r.Ob("counter-sign:"+short(key)+":"+field, "-", false, "no accumulation of "+field+" in "+short(key))
+			}
+		}
 	}
 }
